@@ -5,7 +5,8 @@
    created  for every emitted unit its creation stamp inside the graph function (0 = made later)
    wf       for every emitted unit 1 if the function created it as a width-first unit
    wf_lost  creation stamps of width-first units the function created that were not emitted
-   desc     what SynthDesc.new_from(def) and SynthDesc._read_stream(bytes) recovered
+   desc     what SynthDesc.new_from(def), SynthDesc._read_stream(bytes) and SynthDesc.read(file, keep_defs)
+            recovered
    Verdict, with the operators of SynthGraph.tla:
      invalid program (MustRaise)  => an exception and no bytes
      bytes                        => ScgfWhy = "ok"; the recorded order is a behaviour of the Emit
@@ -99,10 +100,13 @@ Why(t) ==
                   ow == OrderWhy(d, t.created, t.wf) IN
               IF ow # "ok" THEN ow
               ELSE IF t.wf_lost # <<>> THEN "width-first-unit-lost"
-              ELSE IF Len(t.desc) # 2 THEN "desc-missing"
+              ELSE IF Len(t.desc) # 3 THEN "desc-missing"
               ELSE IF DescWhy(d, t.desc[1]) # "ok" THEN "new_from:" \o DescWhy(d, t.desc[1])
               ELSE IF DescWhy(d, t.desc[2]) # "ok" THEN "read_stream:" \o DescWhy(d, t.desc[2])
-              ELSE ProgCtlWhy(t.prog, t.desc[2])
+              ELSE IF ProgCtlWhy(t.prog, t.desc[2]) # "ok" THEN ProgCtlWhy(t.prog, t.desc[2])
+              \* the same bytes read from a file with the definitions kept (SynthDesc.read / SynthDescLib.read)
+              ELSE IF DescWhy(d, t.desc[3]) # "ok" THEN "read_file:" \o DescWhy(d, t.desc[3])
+              ELSE "ok"
 Step == /\ l = 1
         /\ LET why == Why(Traces[tid]) IN
            IF why = "ok" THEN PrintT(<<"ACC", Traces[tid].id>>) /\ l' = 0 - 1
